@@ -2,6 +2,7 @@
 import itertools
 import random
 
+from bcheck import history
 from bcheck.common import Collector, args, run_sharded, call
 from bcheck import urlref as R
 
@@ -94,6 +95,8 @@ HOSTLESS = ["http://u@/a", "http://:8080/a", "http://u:p@:8080/a?x=1#f", "u@/a",
 def main():
     a = args("C01")
     col = Collector("C01", a.tier, a.seed)
+    if a.replay and history.replayed(a, col, "C01"):
+        return
     if a.replay:
         import json
         inp = json.load(open(a.replay))["input"]
@@ -151,6 +154,7 @@ def main():
                 "multi-component URLs. Oracle: component-wise equality of the denotation (urlsplit + strict one-pass byte decoder + dot/empty segment "
                 "resolution + trailing-slash flag + effective port + IDNA-decoded lower-cased host) of cleaned input and of the result. "
                 "distinct_nontrivial = distinct (component, string) / URLs that parse" % (maxlen, len(R.TOKENS)))
+    history.run(col, "C01", a.tier == "quick")
     col.dump(a.out)
 
 
